@@ -30,8 +30,8 @@ PROP = "C02"
 LEAN = {"module": "Pygom.Props.C02", "extra_modules": ["Pygom.Lemmas.Integrate"],
         "required": ["Pygom.C02.rows_correct", "Pygom.C02.rows_aliased", "Pygom.C02.integrate_rows",
                      "Pygom.C02.integrate2_rows", "Pygom.C02.solve_determ_rows", "Pygom.C02.method_dispatch"]}
-BUDGET = {"quick": {"fake": 240, "models": 40, "catalogue": 8, "radau_every": 2, "cython": 1},
-          "thorough": {"fake": 4000, "models": 1500, "catalogue": 32, "radau_every": 4, "cython": 8}}
+BUDGET = {"quick": {"fake": 240, "models": 40, "catalogue": 9, "radau_every": 2, "cython": 1},
+          "thorough": {"fake": 4000, "models": 1500, "catalogue": 36, "radau_every": 4, "cython": 8}}
 RULE = ("fake-integrator cases: random entry point (integrateFuncJac, integrate2, _integrate2, integrate, solve_determ), "
         "1-4 states, dyadic x0/c/t0, grid kind (uniform, non-uniform incl. repeated/unsorted times, one point, scalar, empty, "
         "not-a-time, None), container (list/tuple/ndarray/int/float/np.float64), method in {None,lsoda,vode,ivode,dopri5,dop853, "
@@ -40,7 +40,7 @@ RULE = ("fake-integrator cases: random entry point (integrateFuncJac, integrate2
         "Runtime cases: autonomous random models from harness/gen.py (1-4 states, 1-4 events, all routes, derived parameters, "
         "explicit ODE terms; parameters in [1/8,1], x0 in [1/4,2], horizon min(Tmax, 2/|J(x0)|), uniform or non-uniform grid of "
         "2-8 points, list or ndarray) and catalogue models of pygom.common_models (SIS, SIR, SEIR, Lotka_Volterra, SIR_norm, "
-        "FitzHugh, vanDerPol, Lorenz; equations re-written by hand from their docstrings) x 43 entry-point configurations "
+        "FitzHugh, vanDerPol, Lorenz and the stiff Robertson system (odeint / lsoda / bdf entry points only); equations re-written by hand from their docstrings) x 43 entry-point configurations "
         "(integrate x2, solve_determ x2, integrate2 x 6 methods x full_output, integrateFuncJac x 6 methods x full_output x "
         "includeOrigin, scalar t x3); non-trivial when the reference solution moves by >1e-3 and every configuration was judged")
 ASSUMPTIONS = ["PARTIAL: scipy's integrators (odeint; ode: lsoda/vode/dopri5/dop853) approximate the flow within tolerance - a "
@@ -248,6 +248,15 @@ def catalogue():
     cat.append(dict(name="Lorenz", spec=_ode_spec(["x", "y", "z"], ["beta", "sigma", "rho"],
                                                    [_m(sigma, E.sub(y, x)), E.sub(_m(x, E.sub(rho, z)), y), E.sub(_m(x, y), _m(beta, z))]),
                     params={"beta": "8/3", "sigma": "10", "rho": "28"}, x0=["1", "1", "1"], T=1))
+    # stiff member of the catalogue (hard-coded constants, no parameters): the Jacobian orientation handed to
+    # LSODA only matters in its stiff mode, so this is where a transposed / mis-ordered Jacobian shows
+    y1, y2, y3 = V("y1"), V("y2"), V("y3")
+    k1, k2, k3 = E.num(4, 100), N_(10000), N_(30000000)
+    cat.append(dict(name="Robertson", spec=_ode_spec(["y1", "y2", "y3"], [],
+                                                      [E.add(E.neg(_m(k1, y1)), _m(k2, y2, y3)),
+                                                       E.sub(E.sub(_m(k1, y1), _m(k2, y2, y3)), _m(k3, y2, y2)),
+                                                       _m(k3, y2, y2)]),
+                    params={}, x0=["1", "0", "0"], T=40, stiff=True))
     return cat
 
 
@@ -264,7 +273,9 @@ def gen_catalogue(rng, i, radau):
         grid = [T * Fraction(v, 64) for v in cuts]
         gk = "nonuniform"
     t0 = Fraction(rng.choice([0, 0, 1, -2]))
-    return {"kind": "catalogue", "name": ent["name"], "params": ent["params"], "x0": ent["x0"], "t0": fr(t0),
+    if ent.get("stiff"):
+        t0 = Fraction(0)
+    return {"kind": "catalogue", "name": ent["name"], "params": ent["params"], "x0": ent["x0"], "t0": fr(t0), "stiff": bool(ent.get("stiff")),
             "grid": [fr(t0 + g) for g in grid], "grid_kind": gk, "container": rng.choice(["list", "ndarray"]), "radau": bool(radau)}
 
 
@@ -581,6 +592,24 @@ def reference(f, x0, t0, grid, radau):
     return ref, info
 
 
+def reference_stiff(f, x0, t0, grid):
+    """reference for the stiff catalogue member: Radau at 1e-11, cross-checked by BDF at 1e-11"""
+    from scipy.integrate import solve_ivp
+    import warnings
+    with warnings.catch_warnings():
+        warnings.simplefilter("ignore")
+        s1 = solve_ivp(f, (t0, grid[-1]), x0, method="Radau", rtol=1e-11, atol=1e-14, t_eval=grid)
+        s2 = solve_ivp(f, (t0, grid[-1]), x0, method="BDF", rtol=1e-11, atol=1e-14, t_eval=grid)
+    if s1.status != 0 or s2.status != 0:
+        return None, "stiff-reference-failed"
+    ref = s1.y.T
+    d = float(np.max(np.abs(s2.y.T - ref) / (1.0 + np.abs(ref))))
+    if d > 1e-7:
+        return None, "references-disagree"
+    info = {"amp": 1.0, "stiff": float("inf"), "radau_dev": d, "direct": direct_solver_error(f, x0, t0, grid, ref)}
+    return ref, info
+
+
 def direct_solver_error(f, x0, t0, grid, ref):
     """scaled error of scipy's own odeint on the Lean right-hand side (no pygom involved), at the default
     tolerance pygom's `integrate` uses and at the 1e-10 of `integrateFuncJac`: how well the ASSUMPTION
@@ -699,7 +728,8 @@ def run_runtime(case):
         grid = [t0 + T * float(Fraction(v)) for v in case["fracs"]]
     tags.append("grid=%s" % case["grid_kind"])
     tags.append("backend:%s" % case.get("backend", "lambda"))
-    ref, info = reference(f, x0, t0, grid, case.get("radau"))
+    stiff = bool(case.get("stiff"))
+    ref, info = reference_stiff(f, x0, t0, grid) if stiff else reference(f, x0, t0, grid, case.get("radau"))
     if ref is None:
         return {"nontrivial": False, "mismatches": mism, "violations": viol, "tags": tags + ["rejected:%s" % info]}
     if case["kind"] == "model" and info["amp"] > AMP_MAX:
@@ -746,7 +776,7 @@ def run_runtime(case):
         call("integrate:method=odeint:full_output=%s" % fo, lambda: model.integrate(tg, full_output=fo), True, grid, has_output=fo)
         fresh()
         call("solve_determ:method=odeint:full_output=%s" % fo, lambda: model.solve_determ(tg, full_output=fo), True, grid)
-    for m in METHODS:
+    for m in ((None, "lsoda", "ivode") if stiff else METHODS):    # explicit / Adams integrators are not meant for stiff systems
         for fo in (False, True):
             fresh()
             call("integrate2:method=%s:full_output=%s" % (m, fo), lambda: model.integrate2(tg, full_output=fo, method=m), True, grid,
